@@ -615,7 +615,7 @@ func TestC18(t *testing.T) {
 		t.Fatal("C18 needs -tags verif")
 	}
 	rec := ev.Get("C18")
-	rec.Rule = "histories of 2..10 client actions (start, stop, terminate, abrupt disconnect, websocket close frame, malformed JSON, start without payload, unknown type, invalid query) and upstream actions (event, burst of 5..60 wide events some beyond 6 KB, complete, error, disconnect) over 1..3 subscriptions on one connection (harness-owned net.Pipe), each step either followed by a settle pause or racing with the next one; child requests optionally slow, or the first one losing its connection and later ones never answered (released only by the end of the request context); upstream scripted in process (75%) or a real graphql-ws server behind the real MultiOpQueryer.Subscribe (25%); for single-subscription cases 1..3 drawn ordering constraints 'hook point P before hook point Q' over 18 verif hook points, enforced by parking the goroutine that reaches Q first (bounded). Oracle: process alive, handler returns (30s limit) after the final client disconnect, every byte sequence received parses as complete RFC 6455 frames carrying JSON messages, every upstream subscription/connection observed closed and no goroutine of Listen/Close/Subscribe/heartbeat/handler left (30s limit). non-trivial = a teardown action racing an upstream action, or a satisfied ordering constraint; distinct by hash(case)"
+	rec.Rule = "histories of 2..10 client actions (start, stop, terminate, abrupt disconnect, websocket close frame, malformed JSON, start without payload, unknown type, invalid query) and upstream actions (event, burst of 5..60 wide events some beyond 6 KB, complete, error, disconnect) over 1..3 subscriptions on one connection (harness-owned net.Pipe), each step either followed by a settle pause or racing with the next one; a heartbeat test with three concurrently delivering subscriptions, 6 KB frames and a client that pings every 3 ms; child requests optionally slow, or the first one losing its connection and later ones never answered (released only by the end of the request context); upstream scripted in process (75%) or a real graphql-ws server behind the real MultiOpQueryer.Subscribe (25%); for single-subscription cases 1..3 drawn ordering constraints 'hook point P before hook point Q' over 18 verif hook points, enforced by parking the goroutine that reaches Q first (bounded). Oracle: process alive, handler returns (30s limit) after the final client disconnect, every byte sequence received parses as complete RFC 6455 frames carrying JSON messages, every upstream subscription/connection observed closed and no goroutine of Listen/Close/Subscribe/heartbeat/handler left (30s limit). non-trivial = a teardown action racing an upstream action, or a satisfied ordering constraint; distinct by hash(case)"
 	defer census.dump("C18")
 	rapid.Check(t, func(t *rapid.T) {
 		c := genTeardownCase(t)
@@ -753,6 +753,19 @@ func TestC18Heartbeat(t *testing.T) {
 			}()
 			stopOthers := make(chan struct{})
 			var others sync.WaitGroup
+			// the client pings all the time: the pongs are written by the connection's reader, next to the listeners
+			others.Add(1)
+			go func() {
+				defer others.Done()
+				for {
+					select {
+					case <-stopOthers:
+						return
+					case <-time.After(3 * time.Millisecond):
+						cc.SendPing()
+					}
+				}
+			}()
 			for _, o := range hsubs[1:] {
 				others.Add(1)
 				go func(o *subx.UpSub) {
